@@ -206,6 +206,7 @@ pub fn gen_random(seed: u64, idx: u64, tier: Tier) -> Plan {
             body_limit: 65_536,
             api: if versioned { ApiKind::ErrVersioned } else { ApiKind::Err },
             rt_override: None,
+            tls: false,
         },
         conns,
         shutdown: None,
